@@ -103,7 +103,7 @@ def make_cases(ctx):
                 yield "hs-%04x-%d%d-%s-%s" % (sid, ver[0], ver[1], direction,
                                               how), dict(
                     mode="hs", sid=sid, ver=ver, dir=direction, how=how)
-    for where in ("first", "second", "budget"):
+    for where in ("first", "second", "budget", "budget_ccs"):
         for skey in (None, "rsa"):
             yield "early-%s-%s" % (where, skey), dict(mode="early",
                                                       where=where, skey=skey)
@@ -703,9 +703,13 @@ def run_early(ctx, cid, P):
     fl = Flavor("psk", skey=P["skey"], cset=cs, sset=ss)
     st = {"armed": False, "done": False, "n": 0}
     where = P["where"]
+    ccs = where == "budget_ccs"
+    if ccs:
+        where = "budget"
     if where == "budget":
         # what may be skipped before the client's first protected record is
-        # bounded by max_early_data *in total*
+        # bounded by max_early_data *in total* - also when compatibility
+        # ChangeCipherSpec records are interleaved with the junk
         ss.max_early_data = 1024
 
     def mitm(rec, idx):
@@ -716,6 +720,8 @@ def run_early(ctx, cid, P):
                 for j in range(9):      # 9 x 400 bytes, each below the limit
                     junk += bytes(rec.raw[:3]) + (400).to_bytes(2, "big") + \
                         mon.keystream("%s/%d" % (cid, j), 400)
+                    if ccs:
+                        junk += b"\x14\x03\x03\x00\x01\x01"
                 return junk + rec.raw
             return None
         if not st["armed"] or rec.dir != "c2s" or rec.type != 23:
@@ -746,8 +752,8 @@ def run_early(ctx, cid, P):
     ctx.ev()
     if where == "budget":
         ctx.count("conn_trials")
-        key = {"layer": "handshake", "mut": "early_data_budget_exceeded",
-               "fam": "tls13", "ckind": "gcm"}
+        key = {"layer": "handshake", "mut": "early_data_budget_exceeded" +
+               ("_with_ccs" if ccs else ""), "fam": "tls13", "ckind": "gcm"}
         W = {"case": cid, "outcome": [outcome(tc), outcome(ts)]}
         if not st["done"]:
             ctx.count("conn_not_armed")
